@@ -34,142 +34,6 @@ theorem C06_single_flight_unique (ops : List Op) (t u : Nat)
   rw [h1] at h2
   exact Option.some.inj h2
 
-/-- the fields the property talks about (state, remotely_queued, queue_attempts, every action of a
-background task on behalf of the transfer, membership of the transfer list) -/
-def obs (x : XT) : St × Bool × Nat × Nat × Bool × Bool := (x.st, x.rq, x.attempts, x.acts, x.removed, x.quiet)
-
-theorem trySpawn_quiet {s : TS} (h : Inv s) {k : Nat} (hq : (s.xs k).quiet = true) (j : Nat) :
-    (s.trySpawn j).xs k = s.xs k ∧ (s.trySpawn j).nx = s.nx := by
-  unfold TS.trySpawn
-  split
-  · rename_i kd hsp
-    by_cases e : j = k
-    · subst e
-      exfalso
-      unfold TS.spawnable at hsp
-      simp only at hsp
-      have hs := h.quietSt j hq
-      split at hsp
-      · rename_i hc
-        split at hsp <;> split at hsp <;> try cases hsp
-        all_goals
-          rename_i hd
-          rcases hs with h1 | h1 | h1
-          · rw [hc.2.1] at h1; cases h1
-          · simp [h1] at hd
-          · simp [h1] at hd
-      · cases hsp
-    · exact ⟨upd_other _ _ (fun e' => e e'.symm), rfl⟩
-  · exact ⟨rfl, rfl⟩
-
-theorem cycle_quiet {s : TS} (h : Inv s) {k : Nat} (hq : (s.xs k).quiet = true) (ks : List Nat) :
-    (ks.foldl TS.trySpawn s).xs k = s.xs k ∧ (ks.foldl TS.trySpawn s).nx = s.nx := by
-  induction ks generalizing s with
-  | nil => exact ⟨rfl, rfl⟩
-  | cons j ks ih =>
-    have h1 := trySpawn_quiet h hq j
-    have := ih (inv_trySpawn h j) (by rw [h1.1]; exact hq)
-    simp only [List.foldl_cons]
-    rw [this.1, this.2, h1.1, h1.2]
-    exact ⟨rfl, rfl⟩
-
-/-- one step of anything that is not a user / peer action on `k` leaves a quiet transfer alone -/
-theorem quiet_step {s : TS} (h : Inv s) {k : Nat} (hk : k < s.nx) (hq : (s.xs k).quiet = true) (op : Op)
-    (hn : op.addresses k = false) : obs ((step s op).xs k) = obs (s.xs k) ∧ k < (step s op).nx := by
-  have hdead := h.quietDead k hq
-  cases op with
-  | addDownload =>
-    simp only [step]
-    rw [upd_other _ _ (Nat.ne_of_lt hk)]
-    exact ⟨rfl, Nat.lt_succ_of_lt hk⟩
-  | addUpload =>
-    simp only [step]
-    rw [upd_other _ _ (Nat.ne_of_lt hk)]
-    exact ⟨rfl, Nat.lt_succ_of_lt hk⟩
-  | cycle ks =>
-    have := cycle_quiet h hq ks
-    simp only [step]
-    rw [this.1, this.2]
-    exact ⟨rfl, hk⟩
-  | peerRequest j =>
-    have e : k ≠ j := by
-      have : ¬ j = k := by simpa [Op.addresses] using hn
-      exact fun h => this h.symm
-    simp only [step]
-    split
-    · exact ⟨by rw [show (s.spawn j .initDownload).xs k = s.xs k from upd_other _ _ e], hk⟩
-    · exact ⟨rfl, hk⟩
-  | taskStart t =>
-    simp only [step]
-    split
-    · rename_i hp
-      have hl : (s.tasks t).live = true := live_phase.mpr (Or.inl hp)
-      split
-      · exact ⟨rfl, hk⟩
-      · exact ⟨by simp only []; rw [upd_other _ _ (fun e => hdead t hl e.symm)], hk⟩
-    · exact ⟨rfl, hk⟩
-  | taskEnd t o =>
-    simp only [step]
-    split
-    · rename_i hp
-      have hl : (s.tasks t).live = true := live_phase.mpr (Or.inr hp)
-      have hne : k ≠ (s.tasks t).xfer := fun e => hdead t hl e.symm
-      split
-      · exact ⟨rfl, hk⟩
-      · split <;> exact ⟨by simp only []; rw [upd_other _ _ hne], hk⟩
-    · exact ⟨rfl, hk⟩
-  | doneCallback t =>
-    simp only [step]
-    split
-    · refine ⟨?_, hk⟩
-      simp only []
-      by_cases e : k = (s.tasks t).xfer
-      · subst e
-        rw [upd_same]
-        split <;> split <;> rfl
-      · rw [upd_other _ _ e]
-    · exact ⟨rfl, hk⟩
-  | call j c =>
-    have e : k ≠ j := by
-      have : ¬ j = k := by simpa [Op.addresses] using hn
-      exact fun h => this h.symm
-    simp only [step]
-    split
-    · exact ⟨by simp only []; rw [upd_other _ _ e]; rfl, hk⟩
-    · exact ⟨rfl, hk⟩
-  | callResume j =>
-    have e : k ≠ j := by
-      have : ¬ j = k := by simpa [Op.addresses] using hn
-      exact fun h => this h.symm
-    simp only [step]
-    split
-    · split
-      · exact ⟨by simp only []; rw [upd_other _ _ e], hk⟩
-      · exact ⟨rfl, hk⟩
-    · exact ⟨rfl, hk⟩
-  | requeue j =>
-    have e : k ≠ j := by
-      have : ¬ j = k := by simpa [Op.addresses] using hn
-      exact fun h => this h.symm
-    simp only [step]
-    split
-    · exact ⟨by simp only []; rw [upd_other _ _ e], hk⟩
-    · exact ⟨rfl, hk⟩
-
-theorem quiet_foldl {s : TS} (h : Inv s) {k : Nat} (hk : k < s.nx) (hq : (s.xs k).quiet = true) (ops' : List Op)
-    (hn : ∀ op ∈ ops', op.addresses k = false) :
-    obs ((ops'.foldl step s).xs k) = obs (s.xs k) ∧
-      ∀ t, ((ops'.foldl step s).tasks t).live = true → ((ops'.foldl step s).tasks t).xfer ≠ k := by
-  induction ops' generalizing s with
-  | nil => exact ⟨rfl, h.quietDead k hq⟩
-  | cons op ops ih =>
-    have h1 := quiet_step h hk hq op (hn op List.mem_cons_self)
-    have hq' : ((step s op).xs k).quiet = true := by
-      have : ((step s op).xs k).quiet = (s.xs k).quiet := congrArg (fun o => o.2.2.2.2.2) h1.1
-      rw [this]; exact hq
-    have := ih (inv_step h op) h1.2 hq' (fun o ho => hn o (List.mem_cons_of_mem _ ho))
-    exact ⟨this.1.trans h1.1, this.2⟩
-
 /-- Quiescence: once `abort` / `pause` / `remove` has returned for transfer `k` (`quiet`), then
 along **every** continuation that contains no user / peer action on `k` (no re-queue, no further
 call, no peer request for it): no background task of `k` is alive, and state, `remotely_queued`,
